@@ -12,58 +12,10 @@
   ipv8/attestation/wallet/payload.py, ipv8/messaging/anonymization/payload.py (CellPayload).
 -/
 import Ipv8.C02.Tables
+import Ipv8.C02.Code
 
 namespace Ipv8.C02.Old
 open Ipv8 Ipv8.C02
-
-def ascii (s : String) : Bytes := s.toList.map (fun c => UInt8.ofNat c.toNat)
-
-def sUnknown : Bytes := ascii "unknown"
-def sPublic : Bytes := ascii "public"
-def sSymNat : Bytes := ascii "symmetric-NAT"
-def sNA : Bytes := ascii "N/A"
-
-/-- encode_connection_type -/
-def encConn (s : Bytes) : Nat × Nat :=
-  if s = sPublic then (1, 0) else if s = sSymNat then (1, 1) else (0, 0)
-
-/-- decode_connection_type (arguments are the unpacked bits, 0/1) -/
-def decConn (b0 b1 : Atom) : Bytes :=
-  match b0, b1 with
-  | .nat 0, .nat 0 => sUnknown
-  | .nat 1, .nat 0 => sPublic
-  | .nat 1, .nat 1 => sSymNat
-  | _, _ => sNA
-
-def n (k : Nat) : Atom := .nat k
-
-/-- `bool(x)` / truthiness as 0/1 -/
-def asBit (a : Atom) : Atom := .nat (if truthy a then 1 else 0)
-
-/-- `[b[i:i+k] for i in range(0, len(b), k)]` (fuel = len b) -/
-def chunksAux (k : Nat) : Nat → Bytes → List Bytes
-  | 0, _ => []
-  | fuel+1, b => if b.isEmpty then [] else b.take k :: chunksAux k fuel (b.drop k)
-def chunks (k : Nat) (b : Bytes) : List Bytes := if k = 0 then [] else chunksAux k b.length b
-
-def bytesList (l : List Bytes) : Val := .list (ValList.ofList (l.map (fun b => Val.atom (.bytes b))))
-
-def joinBytes : List Val → Option Bytes
-  | [] => some []
-  | .atom (.bytes b) :: r => (joinBytes r).map (b ++ ·)
-  | _ => none
-
-/-- `b"".join(pack(">20sI", *tb) for tb in tb_overlap)` -/
-def joinTb : List Val → Option Bytes
-  | [] => some []
-  | .tuple [.bytes h, .nat k] :: r =>
-    if k < 256 ^ 4 then (joinTb r).map ((fixedPad 20 h ++ beEnc 4 k) ++ ·) else none
-  | _ => none
-
-/-- `[(tb[i:i+20], unpack(">I", tb[i+20:i+24])[0]) for i in range(0, len(tb), 24)]` -/
-def splitTb (b : Bytes) : Option (List Val) :=
-  (chunks 24 b).mapM (fun c =>
-    if c.length = 24 then some (Val.tuple [.bytes (c.take 20), .nat (beDec (c.drop 20))]) else none)
 
 def vl (l : List Val) : ValList := ValList.ofList l
 
